@@ -211,6 +211,15 @@ func runC09(c *Ctx) {
 		}
 		c.Check("C09-R3", key+" layer list includes config", c.Pos(f.Decl), cfgAppended, "the downloaded list must be Layers plus Config")
 		// completed.Add only inside the closure assigned to `update`
+		// the counter: the local atomic.Int64 whose Load() is compared with the expected total
+		var completedObj types.Object
+		for _, call := range core.Calls(f.Body, true) {
+			if core.CalleeName(info, call) == "sync/atomic.Int64.Load" {
+				if p := core.PathOf(info, call.Fun.(*ast.SelectorExpr).X); p.Valid() && len(p.Fields) == 0 {
+					completedObj = p.Root
+				}
+			}
+		}
 		adds := 0
 		for _, call := range core.Calls(f.Body, true) {
 			if core.CalleeName(info, call) != "sync/atomic.Int64.Add" {
@@ -218,14 +227,14 @@ func runC09(c *Ctx) {
 			}
 			se := call.Fun.(*ast.SelectorExpr)
 			p := core.PathOf(info, se.X)
-			if !p.Valid() || p.Root.Name() != "completed" {
+			if !p.Valid() || completedObj == nil || p.Root != completedObj {
 				continue
 			}
 			adds++
 			lit := core.EnclosingLit(f.Body, call)
 			ok := false
 			if lit != nil {
-				if u := core.UseOfLit(info, f.Body, lit); u.Kind == "assign" && u.Var != nil && u.Var.Name() == "update" {
+				if u := core.UseOfLit(info, f.Body, lit); u.Kind == "assign" && u.Var != nil {
 					ok = true
 				}
 			}
@@ -271,7 +280,7 @@ func runC09(c *Ctx) {
 		binfo := c.P.Pkgs[blobPkg].TypesInfo
 		cps := g.FindCalls("io.CopyN")
 		c.Expect("C09-R2", "io.CopyN in Chunker.Put", len(cps), 1)
-		chunk, dpar := paramObj(f, "chunk"), paramObj(f, "d")
+		chunk, dpar := paramAt(f, 0), paramAt(f, 1)
 		for _, cp := range cps {
 			cc := cp.Node.(*ast.CallExpr)
 			okN := false
@@ -610,7 +619,7 @@ func runC09(c *Ctx) {
 			for _, ex := range g.Returns() {
 				if len(ex.Return.Results) == 1 {
 					if id, isID := ex.Return.Results[0].(*ast.Ident); isID && id.Name == "false" {
-						if isNil, known := g.ObjNilFact(ex.Loc, paramObj(cr, "err")); known && isNil {
+						if isNil, known := g.ObjNilFact(ex.Loc, paramAt(cr, 0)); known && isNil {
 							ok = true
 						}
 					}
